@@ -23,6 +23,7 @@ RULE += (
          'Also: str-subclass and two-field tuple-subclass elements. ')
 RULE += (
          'A second grouping variable asked around the first. ')
+RULE += ('Round 9: the same compiled template rendered again from inside the loop body. ')
 ASSUMPTIONS = [
     'sequence-key is only defined for 2-tuple elements; letters only for '
     'index < 26; sort keys are unique, or tie in which case a sort keeps '
